@@ -1,5 +1,5 @@
 # replay of a bounded stand-in violation (C02): re-run native/c02_preps.py
 import sys
-print('MZgate._decompose puts one operation object into several commands (inverting the decomposition flips its flag twice)')
+print('sMZgate._decompose puts one operation object into several commands (inverting the decomposition flips its flag twice)')
 print('REPLAY-VIOLATION')
 sys.exit(1)
